@@ -41,6 +41,7 @@ fn main() {
         "boxcar-sched" => boxsched::run(&get("tier", "quick"), get("seed", "1").parse().unwrap(), get("shards", "8").parse().unwrap(), &get("out", "/verif/work/boxsched"), a.get("only").map(|s| s.as_str())),
         "nucleo-sched" => nucsched::run(&get("tier", "quick"), get("seed", "1").parse().unwrap(), get("shards", "8").parse().unwrap(), &get("out", "/verif/work/nucsched"), a.get("only").map(|s| s.as_str()), a.get("shard").map(|s| s.parse().unwrap()), get("from", "0").parse().unwrap()),
         "lifecycle-replay" => lifecycle::run(&get("scripts", "/verif/work/scripts.ndjson"), &get("out", "/verif/work/lifecycle.ndjson")),
+        "matcher-one" => mtrace::run_one(&get("input", ""), &get("out", "/verif/work/one.ndjson")),
         "matcher-trace" => {
             let plan = mtrace::Plan {
                 tier: get("tier", "quick"),
